@@ -6,6 +6,8 @@ CONSTANTS
   OrderedMerge = FALSE
   ReadsLeak = FALSE
   OrderedScan = TRUE
+  TableCalls = FALSE
+  Registers = FALSE
   Aliases = FALSE
 INVARIANT Functional
 CHECK_DEADLOCK FALSE
